@@ -39,6 +39,7 @@ def run(ctx):
     r1812_extended_key(ctx)
     from ..statrules import memo_soundness
     memo_soundness(ctx, 'R18.13', ['parameters'])
+    r1814_declared_bounds(ctx)
     from ..statrules import shared_class_state
     shared_class_state(ctx, 'R18.11', sorted(c for c, ci in ctx.prog.classes.items() if ci.module.name == 'parameters'),
                        'children added to one parameter map (or options of one selection parameter) appear in every other one')
@@ -568,3 +569,66 @@ def r1812_extended_key(ctx):
     ctx.ob('R18.12', 'InputParameter.extended_key', ok, sample='extended_key: built from the current parent on every path' + (f'; memoised under a class-level token: {memo_ok}' if memo_returns else ''))
     for (node, msg) in problems[:3]:
         ctx.finding('R18.12', f'InputParameter.extended_key:{msg.split(":")[0][:40]}', ci, node, msg, where='InputParameter.extended_key')
+
+
+def r1814_declared_bounds(ctx):
+    """The bound a parameter enforces is the bound it was declared with: for every bound argument of a constructor, by cases of the argument
+    (None / zero / any other number) the field that set_value compares with is that argument itself -- or, where None is accepted, a
+    constant; a falsy bound (0, 0.0) is a bound like any other."""
+    from ..pathsum import PathSum, Unsupported
+    prog = ctx.prog
+    ctx.rule('R18.14', 'declared bounds are stored as given: by cases of the constructor argument (None / 0 / other) the enforced bound is the argument (a constant only for None)')
+    n = 0
+    for c in sorted(prog.classes):
+        if ROOT not in prog.mro(c):
+            continue
+        ci = prog.classes[c]
+        init = ci.methods.get('__init__')
+        if init is None:
+            continue
+        params = [a.arg for a in init.args.args[1:]] + [a.arg for a in init.args.kwonlyargs]
+        # bound parameters: those that reach a field compared with the value in set_value
+        sv = ci.methods.get('set_value')
+        if sv is None:
+            continue
+        cmp_fields = {x.attr for t in walk_shallow(sv) if isinstance(t, ast.Compare) for x in ast.walk(t) if is_self_attr(x)}
+        for p in params:
+            if not any(p.startswith(pre) for pre in ('min', 'max')):
+                continue
+            fields = None
+            results = {}
+            for case, env in (('None', {('isnone', p): True, ('bool', p): False}), ('zero', {('isnone', p): False, ('bool', p): False, p: 0}),
+                              ('another number', {('isnone', p): False, ('bool', p): True})):
+                try:
+                    outs = PathSum(prog, c, init, env, assume_validated=True).run()
+                except Unsupported:
+                    outs = None
+                if outs is None:
+                    results = None
+                    break
+                vals = set()
+                for o in outs:
+                    if o.kind == 'raise':
+                        continue
+                    for f in cmp_fields:
+                        if f in o.store and (p in {x.id for x in ast.walk(o.store[f]) if isinstance(x, ast.Name)} or case != 'another number'):
+                            vals.add((f, unparse(o.store[f])))
+                results[case] = vals
+            if not results:
+                continue
+            flds = {f for vs in results.values() for (f, _t) in vs if any(p == t_ or p in t_ for (_f, t_) in vs)}
+            stored = {f for (f, t_) in results.get('another number', set()) if t_ == p}
+            if not stored:
+                continue
+            n += 1
+            bad = []
+            for f in sorted(stored):
+                z = {t_ for (f_, t_) in results['zero'] if f_ == f}
+                if z and z != {p}:
+                    bad.append((f, 'zero', z))
+            ctx.ob('R18.14', f'{c}.{p}', not bad, sample=f'{c}: bound argument {p} -> {sorted(stored)}; for 0 the stored bound is the argument: {not bad}')
+            for (f, case, z) in bad:
+                ctx.finding('R18.14', f'{c}.__init__:{p}:{case}', ci, init,
+                            f'{c}(..., {p}=0) stores `{sorted(z)[0]}` in `{f}`, not the 0 it was given: a bound of zero is treated like "no bound", so values beyond the declared '
+                            f'bound are accepted by the constructor and by set_value', where=f'{c}.__init__')
+    ctx.floor('R18.14', 'bound arguments', n, 4)
